@@ -588,7 +588,7 @@ func (g *gen) extraOps() map[string]map[string]interface{} {
 	}
 	return map[string]map[string]interface{}{
 		"/opnest/{grid}": {"get": map[string]interface{}{"operationId": "opnestq", "parameters": qs, "responses": ok, "security": []interface{}{}}},
-		"/opnestform":    {"post": map[string]interface{}{"operationId": "opnestf", "consumes": []string{"application/x-www-form-urlencoded"}, "parameters": fs, "responses": ok, "security": []interface{}{}}},
+		"/opnestform":    {"post": map[string]interface{}{"operationId": "opnestf", "consumes": []string{"application/x-www-form-urlencoded", "multipart/form-data"}, "parameters": fs, "responses": ok, "security": []interface{}{}}},
 	}
 }
 
@@ -603,6 +603,7 @@ var secShapes = [][][]string{
 	{{"key", "basic"}},                 // AND
 	{{"key"}, {"basic"}},               // OR
 	{{"key", "oauth:read"}, {"basic"}}, // mix
+	{{"oauth:admin,write"}},            // a scope the scheme does not declare (legal) next to one it declares: both are demanded
 }
 
 func (g *gen) spec(nops int, variant int) *Spec {
@@ -655,7 +656,7 @@ func (g *gen) spec(nops int, variant int) *Spec {
 				op.Body = 1 + g.r.Intn(2)
 				g.hit(fmt.Sprintf("body:%d", op.Body))
 			case 1:
-				op.Consumes = []string{"application/x-www-form-urlencoded"}
+				op.Consumes = []string{"application/x-www-form-urlencoded", "multipart/form-data"}
 				nf := 1 + g.r.Intn(2)
 				for j := 0; j < nf; j++ {
 					op.Params = append(op.Params, g.param("formData", fmt.Sprintf("f%d", j)))
@@ -699,7 +700,7 @@ func (g *gen) spec(nops int, variant int) *Spec {
 		sp.Ops = append(sp.Ops, op)
 	}
 	// fixed operations: combinations the random draw may miss
-	sp.Ops = append(sp.Ops, OSpec{ID: "opform", Method: "post", Path: "/opform", Consumes: []string{"application/x-www-form-urlencoded"},
+	sp.Ops = append(sp.Ops, OSpec{ID: "opform", Method: "post", Path: "/opform", Consumes: []string{"application/x-www-form-urlencoded", "multipart/form-data"},
 		Params: []PSpec{
 			{Name: "note", GoName: "Note", In: "formData", Type: "string", Required: true, AllowEmpty: true},
 			{Name: "ids", GoName: "Ids", In: "formData", Type: "array", ItemType: "integer", ItemFormat: "int64", CFmt: "csv"},
@@ -720,7 +721,7 @@ func (g *gen) spec(nops int, variant int) *Spec {
 	sp.Ops = append(sp.Ops, OSpec{ID: "opnested", Method: "get", Path: "/opnested",
 		Params:    []PSpec{g.nestedParam("query", "nq0"), g.nestedParam("query", "nq1"), g.nestedParam("query", "nq2"), g.nestedParam("header", "X-Nested")},
 		Responses: []RSpec{{Code: 200}}, HasSecurity: true, Security: [][]string{}})
-	sp.Ops = append(sp.Ops, OSpec{ID: "opnestedform", Method: "post", Path: "/opnestedform", Consumes: []string{"application/x-www-form-urlencoded"},
+	sp.Ops = append(sp.Ops, OSpec{ID: "opnestedform", Method: "post", Path: "/opnestedform", Consumes: []string{"application/x-www-form-urlencoded", "multipart/form-data"},
 		Params:    []PSpec{g.nestedParam("formData", "nf0"), g.nestedParam("formData", "nf1")},
 		Responses: []RSpec{{Code: 200}}, HasSecurity: true, Security: [][]string{}})
 	sp.Extra = g.extraOps()
